@@ -372,34 +372,34 @@ func judgeRT(r *ev.Run, route, codec string, x val, o rtObs) (outcome string) {
 	cs := ccase{"C1", route, codec, x.tok(), ""}
 	desc := func() string { return fmt.Sprintf("%s: codec %s, value %s", route, codec, ev.Clip(x.tok(), 200)) }
 	if o.pan != "" {
-		r.Report("panic:codec:"+codec+":"+cl, desc()+" -> Go panic "+ev.Clip(o.pan, 160), cs, o.pan, "an error value")
+		col.Report("panic:codec:"+codec+":"+cl, desc()+" -> Go panic "+ev.Clip(o.pan, 160), cs, o.pan, "an error value")
 		return "panic"
 	}
 	spec := codecSpecs[codec]
 	accepted := codec != "json" || (jsonRepresentable(x) && x.K != 'n')
 	switch {
 	case o.encErr && accepted:
-		r.Report("encode-rejects:"+codec+":"+cl, desc()+": encode() fails on a value of the codec's domain", cs, "error", "encoded text")
+		col.Report("encode-rejects:"+codec+":"+cl, desc()+": encode() fails on a value of the codec's domain", cs, "error", "encoded text")
 		outcome = "enc-rejected!"
 	case o.encErr:
 		outcome = "enc-rejected"
 	default:
 		if spec.goEncode != nil {
 			if w, ok := spec.goEncode(x.bytes()); ok && o.enc != canonGo(w) {
-				r.Report("mismatch:encode:"+codec, desc()+": encode() = "+ev.Clip(o.enc, 120)+", Go's encoder gives "+ev.Clip(canonGo(w), 120), cs, o.enc, canonGo(w))
+				col.Report("mismatch:encode:"+codec, desc()+": encode() = "+ev.Clip(o.enc, 120)+", Go's encoder gives "+ev.Clip(canonGo(w), 120), cs, o.enc, canonGo(w))
 			}
 		}
 		if codec == "gzip" && route == "object" {
 			if b, err := gunzip(o.encRaw); err != nil || !bytes.Equal(b, x.bytes()) {
-				r.Report("mismatch:encode:gzip", desc()+": Go's gzip reader does not give the input back", cs, fmt.Sprintf("%x %v", b, err), fmt.Sprintf("%x", x.bytes()))
+				col.Report("mismatch:encode:gzip", desc()+": Go's gzip reader does not give the input back", cs, fmt.Sprintf("%x %v", b, err), fmt.Sprintf("%x", x.bytes()))
 			}
 		}
 		switch {
 		case o.decErr:
-			r.Report("roundtrip:"+codec+":decode-error:"+cl, desc()+": decode(encode(x)) fails", cs, "error", "x")
+			col.Report("roundtrip:"+codec+":decode-error:"+cl, desc()+": decode(encode(x)) fails", cs, "error", "x")
 			outcome = "dec-error"
 		case !o.eq && (codec != "json" || jsonRepresentable(x)):
-			r.Report("roundtrip:"+codec+":"+cl, desc()+": decode(encode(x)) != x by risor's Equals (encoded: "+ev.Clip(o.enc, 120)+")", cs, "not equal", "equal")
+			col.Report("roundtrip:"+codec+":"+cl, desc()+": decode(encode(x)) != x by risor's Equals (encoded: "+ev.Clip(o.enc, 120)+")", cs, "not equal", "equal")
 			outcome = "rt-differs"
 		case !o.eq:
 			outcome = "rt-differs-outside-domain"
@@ -413,10 +413,10 @@ func judgeRT(r *ev.Run, route, codec string, x val, o rtObs) (outcome string) {
 	// C3 encode side: the module and the codec must accept the same values and produce the same text
 	switch {
 	case o.mErr != o.encErr:
-		r.Report("json-agree:encode:"+cl, fmt.Sprintf("%s: encode(x,\"json\") %s but json.marshal(x) %s", desc(), okErr(o.encErr, o.enc), okErr(o.mErr, o.m)), cs, okErr(o.encErr, o.enc), okErr(o.mErr, o.m))
+		col.Report("json-agree:encode:"+cl, fmt.Sprintf("%s: encode(x,\"json\") %s but json.marshal(x) %s", desc(), okErr(o.encErr, o.enc), okErr(o.mErr, o.m)), cs, okErr(o.encErr, o.enc), okErr(o.mErr, o.m))
 		outcome += "|agree-accept!"
 	case !o.mErr && o.m != o.enc:
-		r.Report("json-agree:encode:"+cl, fmt.Sprintf("%s: encode(x,\"json\") = %s but json.marshal(x) = %s", desc(), ev.Clip(o.enc, 120), ev.Clip(o.m, 120)), cs, o.enc, o.m)
+		col.Report("json-agree:encode:"+cl, fmt.Sprintf("%s: encode(x,\"json\") = %s but json.marshal(x) = %s", desc(), ev.Clip(o.enc, 120), ev.Clip(o.m, 120)), cs, o.enc, o.m)
 		outcome += "|agree-text!"
 	default:
 		outcome += "|agree"
@@ -424,9 +424,9 @@ func judgeRT(r *ev.Run, route, codec string, x val, o rtObs) (outcome string) {
 	if !o.mErr {
 		switch {
 		case o.mDecErr:
-			r.Report("roundtrip:json.module:decode-error:"+cl, desc()+": json.unmarshal(json.marshal(x)) fails", cs, "error", "x")
+			col.Report("roundtrip:json.module:decode-error:"+cl, desc()+": json.unmarshal(json.marshal(x)) fails", cs, "error", "x")
 		case !o.mEq && jsonRepresentable(x):
-			r.Report("roundtrip:json.module:"+cl, desc()+": json.unmarshal(json.marshal(x)) != x (text "+ev.Clip(o.m, 120)+")", cs, "not equal", "equal")
+			col.Report("roundtrip:json.module:"+cl, desc()+": json.unmarshal(json.marshal(x)) != x (text "+ev.Clip(o.m, 120)+")", cs, "not equal", "equal")
 		}
 	}
 	return outcome
@@ -680,7 +680,7 @@ func partC(r *ev.Run, stride int) {
 			}
 			m, pan := safeCall(func() object.Object { return modjson.Marshal(bg, x.obj(), object.NewString(indent)) })
 			if pan != "" || isErr(m) {
-				r.Report("encode-rejects:json.module:indent", fmt.Sprintf("json.marshal(%s, %q) fails: %s%s", ev.Clip(x.tok(), 160), indent, pan, errText(m)), ccase{"C1", "object", "json", x.tok(), ""}, "error", "text")
+				col.Report("encode-rejects:json.module:indent", fmt.Sprintf("json.marshal(%s, %q) fails: %s%s", ev.Clip(x.tok(), 160), indent, pan, errText(m)), ccase{"C1", "object", "json", x.tok(), ""}, "error", "text")
 				return
 			}
 			var want bytes.Buffer
@@ -688,7 +688,7 @@ func partC(r *ev.Run, stride int) {
 			json.Indent(&want, []byte(compact), "", indent)
 			got, _ := object.AsString(m)
 			if got != want.String() {
-				r.Report("mismatch:json.marshal:indent", fmt.Sprintf("json.marshal(%s, %q) = %q; json.Indent of the compact form = %q", ev.Clip(x.tok(), 120), indent, ev.Clip(got, 120), ev.Clip(want.String(), 120)), ccase{"C1", "object", "json", x.tok(), ""}, got, want.String())
+				col.Report("mismatch:json.marshal:indent", fmt.Sprintf("json.marshal(%s, %q) = %q; json.Indent of the compact form = %q", ev.Clip(x.tok(), 120), indent, ev.Clip(got, 120), ev.Clip(want.String(), 120)), ccase{"C1", "object", "json", x.tok(), ""}, got, want.String())
 			}
 			r.Outcome("C1|json.indent|" + class(x))
 		})
@@ -777,22 +777,22 @@ func judgeMalformed(r *ev.Run, route, codec string, in val, e exp, got object.Ob
 	cs := ccase{"C2", route, codec, "", in.tok()}
 	desc := fmt.Sprintf("%s: decode(%s, %q)", route, ev.Clip(in.tok(), 160), codec)
 	if pan != "" {
-		r.Report("panic:decode:"+codec, desc+" -> Go panic "+ev.Clip(pan, 160), cs, pan, e.String())
+		col.Report("panic:decode:"+codec, desc+" -> Go panic "+ev.Clip(pan, 160), cs, pan, e.String())
 		r.Outcome("C2|" + codec + "|panic")
 		return
 	}
 	c := canonObj(got)
 	switch {
 	case e.kind == 'e' && c != "ERR":
-		r.Report("accepts-malformed:"+codec, desc+" = "+ev.Clip(c, 120)+" but Go's decoder rejects this input", cs, c, "error")
+		col.Report("accepts-malformed:"+codec, desc+" = "+ev.Clip(c, 120)+" but Go's decoder rejects this input", cs, c, "error")
 		r.Outcome("C2|" + codec + "|accepts-malformed")
 	case e.kind == 'e':
 		r.Outcome("C2|" + codec + "|rejected")
 	case c == "ERR":
-		r.Report("rejects-valid:"+codec, desc+" fails ("+ev.Clip(errText(got), 100)+") but Go's decoder accepts this input: "+ev.Clip(e.String(), 120), cs, "error", e.String())
+		col.Report("rejects-valid:"+codec, desc+" fails ("+ev.Clip(errText(got), 100)+") but Go's decoder accepts this input: "+ev.Clip(e.String(), 120), cs, "error", e.String())
 		r.Outcome("C2|" + codec + "|rejects-valid")
 	case c != e.alts[0]:
-		r.Report("mismatch:decode:"+codec, desc+" = "+ev.Clip(c, 120)+", Go's decoder gives "+ev.Clip(e.String(), 120), cs, c, e.String())
+		col.Report("mismatch:decode:"+codec, desc+" = "+ev.Clip(c, 120)+", Go's decoder gives "+ev.Clip(e.String(), 120), cs, c, e.String())
 		r.Outcome("C2|" + codec + "|value-differs")
 	default:
 		r.Outcome("C2|" + codec + "|" + ev.Clip(c, 40))
@@ -803,7 +803,7 @@ func judgeMalformed(r *ev.Run, route, codec string, in val, e exp, got object.Ob
 func judgeAgreeDecode(r *ev.Run, route string, in val, a object.Object, pa string, b object.Object, pb string) {
 	cs := ccase{"C2", route, "json", "", in.tok()}
 	if pb != "" {
-		r.Report("panic:json.unmarshal", fmt.Sprintf("%s: json.unmarshal(%s) -> Go panic %s", route, ev.Clip(in.tok(), 160), ev.Clip(pb, 160)), cs, pb, "")
+		col.Report("panic:json.unmarshal", fmt.Sprintf("%s: json.unmarshal(%s) -> Go panic %s", route, ev.Clip(in.tok(), 160), ev.Clip(pb, 160)), cs, pb, "")
 		return
 	}
 	if pa != "" {
@@ -811,7 +811,7 @@ func judgeAgreeDecode(r *ev.Run, route string, in val, a object.Object, pa strin
 	}
 	ca, cb := canonObj(a), canonObj(b)
 	if ca != cb {
-		r.Report("json-agree:decode", fmt.Sprintf("%s: decode(%s, \"json\") = %s but json.unmarshal = %s", route, ev.Clip(in.tok(), 160), ev.Clip(ca, 120), ev.Clip(cb, 120)), cs, ca, cb)
+		col.Report("json-agree:decode", fmt.Sprintf("%s: decode(%s, \"json\") = %s but json.unmarshal = %s", route, ev.Clip(in.tok(), 160), ev.Clip(ca, 120), ev.Clip(cb, 120)), cs, ca, cb)
 		r.Outcome("C3|decode|differs")
 		return
 	}
